@@ -200,6 +200,52 @@ func (vc *VC) libCall(fr *frame, n *Node, x *ssa.Call, callee *ssa.Function, arg
 		vc.assume(fmt.Sprintf("(=> (> (strlen %s) 0) (> (strlen %s) 0))", args[0].T, rs[0].T))
 		vc.bindResult(n, x, sig, rs)
 		return true
+	case "strings.Index", "strings.LastIndex", "strings.IndexByte", "strings.LastIndexByte", "strings.IndexRune", "strings.IndexAny", "strings.LastIndexAny", "bytes.IndexByte", "bytes.Index", "bytes.LastIndex", "bytes.LastIndexByte", "bytes.IndexAny", "bytes.IndexRune":
+		// documented: -1 when absent, otherwise an index at which the (non-empty) needle fits inside the haystack
+		trust(full + ": result is -1 or an index i with 0 <= i and i + len(needle) <= len(haystack) (i < len for a single byte or rune)")
+		rs := vc.freshResults(n, x.Name(), sig)
+		r := vc.toI(rs[0])
+		var hl string
+		if isString(args[0].Typ) {
+			hl = fmt.Sprintf("(strlen %s)", args[0].T)
+		} else {
+			hl = sLen(args[0].T)
+		}
+		need := "1"
+		switch {
+		case strings.HasSuffix(full, ".Index") || strings.HasSuffix(full, ".LastIndex"):
+			if isString(args[1].Typ) {
+				need = fmt.Sprintf("(strlen %s)", args[1].T)
+			} else {
+				need = sLen(args[1].T)
+			}
+		}
+		vc.assume(fmt.Sprintf("(or (= %s (- 1)) (and (<= 0 %s) (<= (+ %s %s) %s)))", r, r, r, need, hl))
+		if need == "1" {
+			vc.assume(fmt.Sprintf("(< %s %s)", r, hl))
+		}
+		vc.bindResult(n, x, sig, rs)
+		return true
+	case "strings.Split", "strings.SplitN", "strings.SplitAfter", "strings.SplitAfterN":
+		// documented: Split(s, sep) with a non-empty separator returns at least one element; SplitN with n > 0 at most
+		// n; n == 0 returns nil. (an empty separator explodes the string: then the result may be empty for s == "")
+		trust(full + ": with a non-empty separator the result has at least one element (SplitN: between 1 and n elements for n > 0, nil for n == 0)")
+		rs := vc.freshResults(n, x.Name(), sig)
+		wm := vc.decl("wm.c", "Int")
+		vc.assume(fmt.Sprintf("(>= %s %s)", wm, st.wm))
+		st.wm = wm
+		l := sLen(rs[0].T)
+		sepNonEmpty := fmt.Sprintf("(>= (strlen %s) 1)", args[1].T)
+		if strings.HasSuffix(full, "N") {
+			nn := vc.toI(args[2])
+			vc.assume(fmt.Sprintf("(=> (= %s 0) (= %s 0))", nn, l))
+			vc.assume(fmt.Sprintf("(=> (and %s (not (= %s 0))) (>= %s 1))", sepNonEmpty, nn, l))
+			vc.assume(fmt.Sprintf("(=> (> %s 0) (<= %s %s))", nn, l, nn))
+		} else {
+			vc.assume(fmt.Sprintf("(=> %s (>= %s 1))", sepNonEmpty, l))
+		}
+		vc.bindResult(n, x, sig, rs)
+		return true
 	case "(*regexp.Regexp).FindString":
 		trust("(*regexp.Regexp).FindString: the result is a substring (no longer than the argument)")
 		rs := vc.freshResults(n, x.Name(), sig)
